@@ -14,8 +14,8 @@ ID = "C03"
 
 def plan(tier: str) -> dict:
     return {
-        "runs": 6000 if tier == "quick" else 400000,
-        "budget": 70 if tier == "quick" else 900,
+        "runs": 20000 if tier == "quick" else 400000,
+        "budget": 150 if tier == "quick" else 900,
         "cases": [],
         "chunk": 40,
         "rule": "Random HTTP/1 and HTTP/2 sessions (and, in every fourth run, a WebSocket session over either carrier "
